@@ -183,6 +183,14 @@ def uint_class_replay():
                 if r.verdict != "approve" or list(r.logs) != want:
                     return {"input": {"class": cls.__name__, "value": v, "as": "int" if isinstance(arg, int) else "Int expression"},
                             "problems": [f"{cls.__name__}: set / encode / decode gives {r.verdict} {[bytes(x).hex() for x in r.logs]}, expected {[x.hex() for x in want]}"], "teal": teal}
+        for osize, ocls in ((8, pt.abi.Uint8), (16, pt.abi.Uint16), (32, pt.abi.Uint32), (64, pt.abi.Uint64)):
+            try:
+                cls().set(ocls())
+                accepted = True
+            except pt.TealInputError:
+                accepted = False
+            if accepted != (osize == size):
+                return {"input": {"destination": cls.__name__, "source": ocls.__name__}, "problems": [f"{cls.__name__}().set({ocls.__name__}()) is {'accepted' if accepted else 'rejected'}; only equal widths may be copied (no run-time range check follows)"]}
         for bad in (2 ** size, pt.Int(2 ** size) if size < 64 else None):
             if bad is None:
                 continue
@@ -212,7 +220,8 @@ def run(report: Report, tier, seed):
                            ("contracts.c06_uint", "BoolEncode", "O6.20"),
                            ("contracts.c06_uint", "EncodeBoolSequence", "O6.21"),
                            ("contracts.c06_uint", "BoolSetLiteral", "O6.22"), ("contracts.c06_uint", "BoolSetExpr", "O6.23"),
-                           ("contracts.c06_uint", "UintEncodeLink", "O6.24"), ("contracts.c06_uint", "UintSetLink", "O6.25")])
+                           ("contracts.c06_uint", "UintEncodeLink", "O6.24"), ("contracts.c06_uint", "UintSetLink", "O6.25"),
+                           ("contracts.c06_uint", "UintSetFromUint", "O6.26")])
     jobs = jobs_for(tier, seed)
     res = A.pool_map(A.encode_case, jobs)
     bad = [r for r in res if r["problems"]]
